@@ -325,9 +325,24 @@ static vp::Verdict checkInt(const StrCase &c, vp::Ctx &ctx)
     return vp::pass();
 }
 
+#ifdef VP_FUZZ
+static TokCase fuzzTok(FuzzedDataProvider &fdp)
+{
+    TokCase c;
+    static const int bases[] = {0, 8, 10, 16};
+    c.base = bases[fdp.ConsumeIntegralInRange<int>(0, 3)];
+    c.allowSign = fdp.ConsumeBool();
+    c.limit = fdp.ConsumeIntegralInRange<int>(-1, 30);
+    c.input = fdp.ConsumeRemainingBytesAsString();
+    return c;
+}
+#else
+static std::function<TokCase(FuzzedDataProvider &)> fuzzTok = nullptr;
+#endif
+
 static void registerAll()
 {
-    vp::add<TokCase>("tokenizer_int64", genTok(), checkTok, showTok, parseTok, 2.0);
+    vp::add<TokCase>("tokenizer_int64", genTok(), checkTok, showTok, parseTok, 2.0, fuzzTok);
     vp::add<StrCase>("httpHeaderParseOffset", genStr(), checkOffset, showStr, parseStr, 1.0);
     vp::add<StrCase>("httpHeaderParseInt", genStr(), checkInt, showStr, parseStr, 1.0);
 }
